@@ -70,9 +70,9 @@ def required(tier):
         "conv_mult_pairs": 7500, "conv_offset_pairs": 40, "conv_family_calls": 1000,
         "rel_invariance_checks": 8000, "conv_log_attempts": 14,
         "arith_binary": 20000 if t else 3000, "arith_sigma_checked": 20000 if t else 3000,
-        "arith_kinds": 30, "arith_trees_checked": 5000 if t else 600, "arith_offset_cases": 300,
-        "parse_cases": 10000 if t else 1500, "parse_classes": 60, "parse_embedded": 1000 if t else 200,
-        "format_cases": 10000 if t else 2000, "format_specs": 100, "format_roundtrips": 1500 if t else 300,
+        "arith_kinds": 80, "arith_trees_checked": 5000 if t else 600, "arith_offset_cases": 300,
+        "parse_cases": 10000 if t else 1500, "parse_classes": 250, "parse_embedded": 1000 if t else 200,
+        "format_cases": 10000 if t else 2000, "format_specs": 600, "format_roundtrips": 1500 if t else 300,
     }
 
 
@@ -1345,7 +1345,8 @@ def run_format(spec, rec):
                             rec.count("skipped_plain_quantity_also_fails_to_format")
                             continue
                         rec.violation("format-raised", dict(wit, err=repr(ex)[:300]), err=type(ex).__name__,
-                                      flag=flag or "default", modifier="~ or #" if mod else "none")
+                                      flag=flag or "default",
+                                      modifier="~" if "~" in mod else ("#" if mod else "none"))
                         continue
                     target = m
                     if "#" in mod:
